@@ -31,7 +31,7 @@ add("C01", "exploration",
     "DESIGN.md section 5 C01")
 add("C04", "exploration",
     "property-based testing with exact enumeration of all random outcomes per move (transition matrices over all clone trees; pi K = pi; sweep = product of component kernels)",
-    "Each auxiliary move (data-point with/without outliers, prune-regraft, subtree inner kernel, subtree full move incl. its decomposition into selection x inner kernel and its support, run-loop sweep composition incl. a second sweep after a concentration update) is checked separately by exact enumeration on generated data sets with n<=4. One known finding (F7) is listed in known_findings.json.",
+    "Each auxiliary move (data-point with/without outliers, prune-regraft, subtree inner kernel, subtree full move incl. its decomposition into selection x inner kernel and its support, run-loop sweep composition incl. a second sweep after a concentration update, and the run loop's sweep driven with pi-invariant stand-in updates on 243-2992 states) is checked separately by exact enumeration on generated data sets with n<=4. One known finding (F7) is listed in known_findings.json.",
     "Trusts EnumRNG and numpy; pi from the code's log_p_one; subtree-full for n>=3 is a recorded known finding, so new defects confined to that component and size are only caught through subtree-inner and n<=2.",
     "DESIGN.md section 5 C04")
 
@@ -86,7 +86,7 @@ add("C10", "exploration",
     "DESIGN.md section 5 C10")
 add("C13", "exploration",
     "property-based testing with a recording/scripted generator: parameters of every draw compared with the target density's closed form; numerical 2-D quadrature of the implemented kernel against the conditional posterior; call-site check with a stub sampler",
-    "Every draw's distribution parameters (Beta, Bernoulli weight, Gamma shape/rate) are checked for generated (a, b, alpha, K, n, eta); the implemented kernel is integrated numerically against p(alpha|K,n) for several (a,b,K,n); the run loop's K, n extraction and propagation of the new value are checked on generated trees with outliers.",
+    "Every draw's distribution parameters (Beta, Bernoulli weight, Gamma shape/rate) are checked for generated (a, b, alpha, K, n, eta); the implemented kernel is integrated numerically against p(alpha|K,n) for several (a,b,K,n); the run loop's K, n extraction and propagation of the new value are checked on generated trees with outliers, and inside run._run_main_sampler with scripted moves (the update must see the tree the sweep ends with).",
     "Observation point is Generator.beta/binomial/standard_gamma (reached by scipy .rvs(random_state=rng)); quadrature by scipy.integrate.quad.",
     "DESIGN.md section 5 C13")
 add("C14", "exploration",
@@ -112,7 +112,7 @@ add("C16", "exploration",
     "DESIGN.md section 5 C16")
 add("C18", "exploration",
     "differential testing of whole `phyclone run` processes under generated perturbations (hash seed, CPU affinity, per-chain delays reversing completion order)",
-    "Weakest claim: OS schedules are perturbed, not enumerated. Each generated configuration is run 4 times in fresh interpreters; per-chain traces (trees incl. labels, alpha, log_p_one as hex floats) must be identical.",
+    "Weakest claim: OS schedules are perturbed, not enumerated. Each generated configuration (six strata: small multi-chain, clustered heavy, sub-tree updates on branching data, 10-14 clone trees with several prune-regraph moves per sweep, --assign-loss-prob with tied truncal clusters) is run 4 times in fresh interpreters; per-chain traces (trees incl. labels, alpha, log_p_one as hex floats) must be identical.",
     "Delay wrapper installed by the re-imported main module in spawn workers; `random` hash seed and reversed completion orders are observed in the run logs and reported.",
     "DESIGN.md section 5 C18")
 add("C19", "exploration",
